@@ -98,7 +98,7 @@ def inline_new_helpers(modules, exits):
         if kind == "method" and f.decorator_list and not _is_static(f):
             continue
         # a recursive helper is not inlined
-        if any(isinstance(n, ast.Name) and n.id == bare or isinstance(n, ast.Attribute) and n.attr == bare for n in ast.walk(f)):
+        if any(isinstance(n, ast.Name) and n.id == bare or (kind == "method" and isinstance(n, ast.Attribute) and n.attr == bare) for n in ast.walk(f)):
             continue
         expr = _body_wo_doc(f)[0].value
         replaced, failed = [0], [0]
@@ -134,7 +134,7 @@ def inline_new_helpers(modules, exits):
             for i, st in enumerate(t2.body):
                 t2.body[i] = t.visit(st)
         # bare mentions that remain (passed as a value) keep the definition alive
-        left = sum(1 for t2 in modules.values() for n in ast.walk(t2) if (isinstance(n, ast.Name) and n.id == bare and isinstance(n.ctx, ast.Load)) or (isinstance(n, ast.Attribute) and n.attr == bare))
+        left = sum(1 for t2 in modules.values() for n in ast.walk(t2) if (isinstance(n, ast.Name) and n.id == bare and isinstance(n.ctx, ast.Load)) or (kind != "nested" and isinstance(n, ast.Attribute) and n.attr == bare))
         if replaced[0] and not failed[0] and not left:
             _remove_def(modules[mod], f)
             done.append("%s.%s (%d call%s)" % (mod, q, replaced[0], "" if replaced[0] == 1 else "s"))
@@ -756,3 +756,130 @@ def beta_reduce(tree):
         tree.body[i] = T().visit(st)
     ast.fix_missing_locations(tree)
     return n
+
+
+# ---------------------------------------------------------------------------------------------------------------------
+# extracted procedures: a NEW function with a straight-line body (at most one `return`, the last statement), called as  T = f(...) / f(...) / return f(...)
+# ---------------------------------------------------------------------------------------------------------------------
+def inline_new_procedures(modules, exits):
+    done = []
+    cands, recorded_names = {}, set()
+    for mod, tree in modules.items():
+        rec = exits.get(mod)
+        funcs, classes = index_functions(mod, tree)
+        for q, f in funcs.items():
+            bare = q.rsplit(".", 1)[-1]
+            if rec is not None and q not in rec:
+                body = _body_wo_doc(f)
+                if not body or (f.decorator_list and not _is_static(f)):
+                    continue
+                rets = [x for s in body for x in ast.walk(s) if isinstance(x, ast.Return)]
+                if len(rets) > 1 or (rets and rets[0] is not body[-1]) or any(isinstance(x, (ast.Yield, ast.YieldFrom, ast.FunctionDef, ast.Lambda, ast.Global, ast.Nonlocal)) for s in body for x in ast.walk(s)):
+                    continue
+                if len(body) == 1 and rets:
+                    continue            # single-return helpers are inlined as expressions
+                parent = q.rsplit(".", 1)[0] if "." in q else None
+                kind = "method" if parent in classes else "nested" if parent else "module"
+                cands.setdefault(bare, []).append((mod, q, f, kind))
+            else:
+                recorded_names.add(bare)
+    for bare, lst in sorted(cands.items()):
+        if len(lst) != 1 or bare in recorded_names or bare.startswith("__"):
+            continue
+        mod, q, f, kind = lst[0]
+        if any((isinstance(n, ast.Name) and n.id == bare) or (kind == "method" and isinstance(n, ast.Attribute) and n.attr == bare) for n in ast.walk(f)):
+            continue
+        body = _body_wo_doc(f)
+        ret = body[-1].value if isinstance(body[-1], ast.Return) else None
+        stmts = body[:-1] if isinstance(body[-1], ast.Return) else body
+        params = [a.arg for a in f.args.args]
+        stored = {x.id for s in stmts for x in ast.walk(s) if isinstance(x, ast.Name) and isinstance(x.ctx, ast.Store)}
+        locals_ = stored - set(params)
+        replaced, failed = 0, 0
+
+        def is_call(e):
+            if not isinstance(e, ast.Call):
+                return False
+            if isinstance(e.func, ast.Name):
+                return e.func.id == bare and kind in ("module", "nested")
+            return isinstance(e.func, ast.Attribute) and e.func.attr == bare and kind != "nested"
+
+        for m2, t2 in modules.items():
+            if kind == "nested" and m2 != mod:
+                continue
+            funcs2, _ = index_functions(m2, t2)
+            for q2, caller in funcs2.items():
+                if caller is f:
+                    continue
+                inside_f = {id(x) for x in ast.walk(f)}
+                caller_names = {x.id for x in ast.walk(caller) if isinstance(x, ast.Name) and id(x) not in inside_f} | {a.arg for a in caller.args.args}
+                for owner in [caller] + [n for n in alpha.own_nodes(caller) if not isinstance(n, alpha.SCOPES)]:
+                    for field in ("body", "orelse", "finalbody"):
+                        blk = getattr(owner, field, None)
+                        if not (isinstance(blk, list) and blk and all(isinstance(s, ast.stmt) for s in blk)):
+                            continue
+                        k = 0
+                        while k < len(blk):
+                            st = blk[k]
+                            k += 1
+                            if isinstance(st, ast.Assign) and len(st.targets) == 1 and is_call(st.value):
+                                call, mode = st.value, "assign"
+                            elif isinstance(st, ast.Expr) and is_call(st.value):
+                                call, mode = st.value, "expr"
+                            elif isinstance(st, ast.Return) and st.value is not None and is_call(st.value):
+                                call, mode = st.value, "return"
+                            else:
+                                continue
+                            recv = None
+                            if kind == "method" and not _is_static(f) and isinstance(call.func, ast.Attribute) and not (isinstance(call.func.value, ast.Name) and call.func.value.id[:1].isupper()):
+                                recv = call.func.value
+                            m = _bind(f, call, recv)
+                            tgt = st.targets[0] if mode == "assign" else None
+                            tname = tgt.id if isinstance(tgt, ast.Name) else None
+                            clash = (locals_ & caller_names) - ({tname} if tname else set())
+                            if m is None or clash or (mode == "assign" and ret is None):
+                                failed += 1
+                                continue
+                            pre, mapping, ok = [], {}, True
+                            for p_ in params:
+                                v = m[p_]
+                                loads = sum(1 for s in stmts + ([body[-1]] if ret is not None else []) for x in ast.walk(s) if isinstance(x, ast.Name) and x.id == p_ and isinstance(x.ctx, ast.Load))
+                                if p_ in stored:
+                                    if isinstance(v, ast.Name) and v.id == p_:
+                                        continue
+                                    ok = False
+                                    break
+                                if isinstance(v, (ast.Name, ast.Attribute, ast.Constant)) or loads <= 1:
+                                    mapping[p_] = v
+                                else:
+                                    ok = False
+                                    break
+                            if not ok:
+                                failed += 1
+                                continue
+                            sub = _ParamSubst(mapping)
+                            new = [sub.visit(copy.deepcopy(s)) for s in stmts]
+                            if ret is not None:
+                                r = sub.visit(copy.deepcopy(ret))
+                                if mode == "assign":
+                                    if not (isinstance(r, ast.Name) and r.id == tname):
+                                        new.append(ast.Assign(targets=[tgt], value=r))
+                                elif mode == "return":
+                                    new.append(ast.Return(value=r))
+                                else:
+                                    new.append(ast.Expr(value=r))
+                            elif mode == "return":
+                                new.append(ast.Return(value=None))
+                            for s in new:
+                                ast.copy_location(s, st)
+                                ast.fix_missing_locations(s)
+                            blk[k - 1:k] = new
+                            k += len(new) - 1
+                            replaced += 1
+        left = sum(1 for t2 in modules.values() for n in ast.walk(t2) if (isinstance(n, ast.Name) and n.id == bare and isinstance(n.ctx, ast.Load)) or (kind == "method" and isinstance(n, ast.Attribute) and n.attr == bare))
+        if replaced and not failed and not left:
+            _remove_def(modules[mod], f)
+            done.append("%s.%s (%d call%s, statements)" % (mod, q, replaced, "" if replaced == 1 else "s"))
+        elif replaced:
+            done.append("%s.%s (%d calls, statements; definition kept)" % (mod, q, replaced))
+    return done
